@@ -25,9 +25,19 @@ fn main() {
         let mut o = util::Out::new();
         let lines: Vec<String> = match args.iter().position(|a| a == "--in") {
             Some(i) => std::fs::read_to_string(&args[i + 1]).unwrap().lines().map(|s| s.to_string()).collect(),
-            None => gen(seed, thorough, &mut o),
+            None => {
+                // minimised past failures run first: <corpus>/<suite>.txt
+                let mut v: Vec<String> = vec![];
+                if let Some(i) = args.iter().position(|a| a == "--corpus") {
+                    if let Ok(t) = std::fs::read_to_string(format!("{}/{}.txt", args[i + 1], name)) {
+                        v.extend(t.lines().filter(|l| !l.trim().is_empty() && !l.starts_with('#')).map(|s| s.to_string()));
+                        o.stat_n("corpus-lines", v.len() as u64);
+                    }
+                }
+                v.extend(gen(seed, thorough, &mut o));
+                v
+            }
         };
-        let _ = name;
         for l in lines {
             let a = match util::guarded(|| exec(&l, &mut o)) {
                 Ok(a) => a,
